@@ -186,7 +186,7 @@ def rule_path_literal_gate(chk: Check):
 
     param = [a.arg for a in sp.args.args][0]
     SQ, DQ = "'", '"'
-    bodies = ["x", "zip" + SQ + "s", "say " + DQ + "hi" + DQ, "p", "a" + SQ + "p" + DQ + "b"]
+    bodies = ["x", "zip" + SQ + "s", "say " + DQ + "hi" + DQ, "p", "a" + SQ + "p" + DQ + "b", "a\nb", "a\\\nb", ""]
     bad = []
     n = 0
     for pre in prefixes:
@@ -196,14 +196,23 @@ def rule_path_literal_gate(chk: Check):
                     continue
                 text = f"{pre}{q}{body}{q}"
                 n += 1
+                if "\n" in body and len(q) == 1 and "\\" not in body:
+                    continue    # a bare newline cannot occur inside a one-quote literal
                 try:
                     got = constfold.eval_pure_function(sp, {param: FakeTok(text)}, data_attrs=("string", "_replace"),
                                                        extra={"TokenInfo": FakeTok})
                 except constfold.PureEvalError as e:
-                    chk.count("X1-path-literal-gate")
-                    chk.undecided("X1-path-literal-gate", "Parser._strip_path_prefix", f"{repo.SUBHEADER}:{sp.lineno}",
-                                  f"the helper is outside the evaluable subset: {e}")
-                    return
+                    # second evaluator: statement subset with module-level literal / re.compile constants and pure str / re methods
+                    from .c17 import EvalError as _EvErr, _mini_eval as _mini, module_pure_constants as _mpc
+                    try:
+                        env = dict(_mpc(repo.SUBHEADER))
+                        env.update({param: FakeTok(text), "TokenInfo": FakeTok})
+                        got = _mini(sp, env, {"_replace"})
+                    except _EvErr as e2:
+                        chk.count("X1-path-literal-gate")
+                        chk.undecided("X1-path-literal-gate", "Parser._strip_path_prefix", f"{repo.SUBHEADER}:{sp.lineno}",
+                                      f"the helper is outside the evaluable subset: {e}; {e2}")
+                        return
                 is_path = "p" in pre.lower()
                 if (got is not None) != is_path:
                     bad.append((text, "path literal" if got is not None else "plain string"))
@@ -609,15 +618,18 @@ def run(chk: Check):
     live = irtools.reachable(irtools.ref_graph(ir.rules), ["file", "eval"])
     rule_x4b(chk, ir, chk.units.get("confined_rules", []), live)
     rule_x5(chk, ir)
+    from .x11 import rule_x11
+    rule_x11(chk)
     rule_x6(chk, ir)
     rule_x7(chk)
     rule_x8(chk, ir, ix)
     rule_x10(chk, ix)
     # rejection mechanisms that live in the scanner and in the string actions are necessary for C02 as much as for the
     # property they were written under: inconsistent dedent, unterminated one-line strings, bytes next to str/f-strings
-    from .c08 import rule_l2, rule_l4
+    from .c08 import rule_l1, rule_l2, rule_l4
     rule_l4(chk, ix)
     rule_l2(chk, ix)
+    rule_l1(chk, ix)   # a token whose text is not the source slice can be a keyword where the source has none (NFKC-folded names)
     from .c09 import rule_k1, rule_k4, rule_k6
     rule_k4(chk, constfold.fold_tokenize(), ix)   # the indentation measure decides which dedents are inconsistent
     rule_k6(chk, constfold.fold_tokenize(), ix, False)
